@@ -65,6 +65,12 @@ SNIPPETS = [
     "class Stack:\n    def __init__(self):\n        self.items = []\n    def push(self, v):\n        self.items.append(v)\n        return self\n    def __len__(self):\n        return len(self.items)\n    def __repr__(self):\n        return 'Stack(%r)' % self.items\nst = Stack().push(1).push('a')\nprint(st, len(st), isinstance(st, Stack), type(st).__name__)\n",
     "def kw(a, *args, key=None, **extra):\n    return (a, args, key, sorted(extra.items()))\nprint(kw(1), kw(1, 2, 3, key='k', z=0, y=1))\n",
     "matrix = [[r * c for c in range(3)] for r in range(3)]\nprint(matrix, [row[1] for row in matrix], {r: sum(matrix[r]) for r in range(3)}, {v % 2 for row in matrix for v in row})\n",
+    "import os.path\nfrom os.path import join\nprint(join('a', 'b'), os.path.basename('x/y'))\n",
+    "from os.path import basename\nimport os.path\nprint(basename('p/q'), os.path.join('a', 'b'), os.sep)\n",
+    "from collections.abc import Mapping\nimport collections.abc\nprint(isinstance({}, Mapping), collections.abc.Sized.__name__, collections.OrderedDict.__name__)\n",
+    "import urllib.parse\nfrom urllib.parse import quote\nprint(quote('a b'), urllib.parse.unquote('a%20b'))\n",
+    "import json.decoder\nfrom json.decoder import JSONDecodeError\nimport json\nprint(JSONDecodeError.__name__, json.decoder.__name__, json.dumps(1))\n",
+    "import xml.etree.ElementTree as ET\nfrom xml.etree import ElementTree\nprint(ET is ElementTree, ET.Element('a').tag)\n",
     "wcount = 0\nwhile True:\n    wcount += 1\n    if wcount > 3:\n        break\nelse:\n    print('never')\nfor q in range(2):\n    pass\nelse:\n    print('for-else', q, wcount)\n",
 ]
 
@@ -343,8 +349,20 @@ def safe_copy(args):
 def call_once(ctx, case, sandbox, ref_ns, fname, label, argsrc, rng):
     from pedal.sandbox import commands as sbx
     sb_args = None
+    given_kwargs = {}
+    sb_kwargs = None
+    if argsrc.startswith('kw:'):
+        # "kw:<expression giving (positional list, keyword dict)>"
+        try:
+            args, given_kwargs = eval(argsrc[3:], {'__builtins__': builtins})
+            sb_args, sb_kwargs = eval(argsrc[3:], {'__builtins__': builtins})
+        except Exception:
+            ctx.count('argument_source_not_evaluable')
+            return
     try:
-        if argsrc.startswith('ns:'):
+        if argsrc.startswith('kw:'):
+            pass
+        elif argsrc.startswith('ns:'):
             # built from the program's own classes: one object per world, each of that world's class
             args = eval(argsrc[3:], dict(ref_ns))
             sb_args = eval(argsrc[3:], dict(sandbox.data))
@@ -375,14 +393,14 @@ def call_once(ctx, case, sandbox, ref_ns, fname, label, argsrc, rng):
     ref_res = ref_exc = None
     with contextlib.redirect_stdout(buf):
         try:
-            ref_res = ref_ns[fname](*(args if argsrc.startswith('ns:') else safe_copy(args)), **kwargs)
+            ref_res = ref_ns[fname](*(args if argsrc.startswith(('ns:', 'kw:')) else safe_copy(args)), **dict(kwargs, **given_kwargs))
         except BaseException as e:
             ref_exc = e
     if ref_exc is None and target != '_':
         ref_ns[target] = ref_res
     sbx.clear_output()
     try:
-        res = sbx.call(fname, *(safe_copy(args) if sb_args is None else sb_args), target=target, **kwargs)
+        res = sbx.call(fname, *(safe_copy(args) if sb_args is None else sb_args), target=target, **dict(kwargs, **(sb_kwargs or {})))
     except BaseException as e:
         ctx.count('call_raised_(C04 territory)')
         return
@@ -478,6 +496,16 @@ def special_programs():
                 [('describe_dog', ["ns:[Dog('fido', ['roll'])]"]), ('teach', ["ns:[Dog('fido', []), 'beg']", "ns:[rex, 'beg']"]), ('same', ["ns:[rex, rex]", "ns:[Dog('a', []), Dog('a', [])]"])]))
     out.append(('aliased-arguments', "def grow(a, b):\n    a.append(1)\n    return len(b)\ndef same(a, b):\n    return a is b\ndef put(d, e):\n    d['new'] = 1\n    return sorted(e)\n",
                 [('grow', [a for _, a in ALIASED_ARGS[:1]] + ['[[1], [1]]']), ('same', [a for _, a in ALIASED_ARGS] + ['[[1], [1]]']), ('put', [ALIASED_ARGS[1][1]])]))
+    out.append(('dotted-module-imported-in-both-forms', "import os.path\nimport collections\ndef base(p):\n    from os.path import basename\n    return basename(p)\n"
+                "def kinds(v):\n    from collections.abc import Sized, Mapping\n    import collections.abc\n    return [isinstance(v, Sized), isinstance(v, Mapping), collections.abc.Sized is Sized]\n"
+                "print(os.path.join('a', 'b'), collections.OrderedDict.__name__)\n", [('base', ["['x/y']", "['q']"]), ('kinds', ["[{}]", "[[1]]"])]))
+    out.append(('dotted-module-from-form-first', "from os.path import join\ndef base(p):\n    import os.path\n    return os.path.basename(p) + os.sep\nprint(join('a', 'b'))\n",
+                [('base', ["['x/y']"])]))
+    out.append(('keyword-arguments', "def grow(a, b=None, c=None):\n    a.append(1)\n    return [len(a), None if b is None else len(b), None if c is None else len(c)]\n"
+                "def same(a=None, b=None):\n    return a is b\ndef label(text, times=2, sep='-'):\n    return sep.join([text] * times)\n",
+                [('grow', ["kw:(lambda x: ([x], {'b': x}))([5])", "kw:(lambda x: ([x], {'b': [5], 'c': x}))([5])", "kw:([[1]], {'b': [1]})", "kw:(lambda x: ([], {'a': x, 'b': x}))([])"]),
+                 ('same', ["kw:(lambda x: ([], {'a': x, 'b': x}))([1])", "kw:(lambda x: ([x], {'b': x}))({'k': 1})", "kw:([], {'a': [1], 'b': [1]})", "kw:([], {})"]),
+                 ('label', ["kw:(['ab'], {'sep': '+'})", "kw:([], {'text': 'q', 'times': 3})", "kw:(['x', 1], {})"])]))
     out.append(('aliasing-inside-one-argument', "def first_grows(pair):\n    pair[0].append(9)\n    return len(pair[1])\ndef same_inside(d):\n    return d['a'] is d['b']\n"
                 "def depth(a):\n    return 1 if a[1] is a else 0\n",
                 [('first_grows', [ALIASED_ARGS[3][1], '[[[1], [1]]]']), ('same_inside', [ALIASED_ARGS[4][1]]), ('depth', [ALIASED_ARGS[5][1]])]))
